@@ -71,6 +71,17 @@ def run(tier, seed):
     extra = [(sp, dict(o, error_tol=0.0)) for sp, o in its[:: (11 if tier == "quick" else 3)]]
     extra += [(sp, {"rule": "TSLACK", "max_time": 20}) for sp in F.large_amount_specs() + F.mixed_wiring_specs()]
     extra += stepcheck.resumed_edit_items(("team-add-target",), ks=(1, 2, 3, 4, 5))
+    for s0, s1 in ((1.0, 0.0), (0.0, 1.0), (0.0, 0.0), (0.5, 0.5)):
+        zs = {"tasks": [{"name": "T0", "work": 3.0, "nf": True}, {"name": "T1", "work": 2.0, "nf": True}], "links": [],
+              "components": [{"name": "C0", "tasks": [0], "space": s0}, {"name": "C1", "tasks": [1], "space": s1}],
+              "workplaces": [{"name": "WP0", "cap": 1.0, "targets": [0, 1], "facilities": [{"name": "F0", "skills": {"T0": 1.0, "T1": 1.0}}, {"name": "F1", "skills": {"T0": 1.0, "T1": 1.0}}]}],
+              "teams": [{"name": "TM0", "targets": [0, 1], "workers": [{"name": "W%d" % i, "skills": {"T0": 1.0, "T1": 1.0}, "fskills": {"F0": 1.0, "F1": 1.0}} for i in range(2)]}]}
+        extra.append((zs, {"rule": "TSLACK", "max_time": 14}))
+    for fl in list(F.flows(3, F.KINDS4, (1, 2)))[:: (9 if tier == "quick" else 2)]:
+        if fl["links"]:
+            for api in ("int", "extend", "extend-gen"):
+                sp = dict(F.with_teams(fl, "DED"), link_api=api)
+                extra.append((sp, {"rule": "TSLACK", "max_time": F.seq_bound(sp) + 8}))
     # a checkpoint written at step k and read back, into a new project and into the very object that wrote it, before the run goes on
     extra += [(sp, dict(o, resume_from=k, resume_via_json=how)) for sp, o in its[:: (17 if tier == "quick" else 5)] for k in (1, 2) for how in (True, "same")]
     col.merge(stepcheck.explore(extra, MONS, 0, 0, seed=seed))
